@@ -55,7 +55,7 @@ def build(seed, tier):
     rf = st[seeds.FAULTS]
     with_helper = rc.random() < 0.2
     prog = progs.gen_program(st[seeds.PROGRAM], size=rc.randint(3, 10 if tier == 'quick' else 16), with_helper=with_helper,
-                             planted_raise=rc.random() < 0.1)
+                             planted_raise=rc.random() < 0.1, with_data=rc.random() < 0.2)
     stmts = [list(s) for s in histories.LIBRARY] + prog['files']['answer.py']
     if with_helper and rc.random() < 0.4:
         stmts.append(['from helper import hdouble as hd2'])
